@@ -30,7 +30,11 @@ pub(crate) fn scan_dimen<S: TexlangState>(
             // TeX.2021.449
             use super::integer::InternalNumber;
             match super::integer::parse_internal_number(input, first_token, command_ref)? {
-                InternalNumber::Integer(i) => (negative * i.signum(), i.abs(), Scaled::ZERO),
+                InternalNumber::Integer(i) => {
+                    // saturating: i32::MIN has no absolute value; its magnitude is out of range for
+                    // every unit anyway
+                    (negative * i.signum(), i.saturating_abs(), Scaled::ZERO)
+                }
                 InternalNumber::Dimen(d) => {
                     return Ok(d * negative);
                 }
